@@ -38,6 +38,15 @@ def run(R):
     tonic = R.crate('tonic')
     run_codec_tables(R, tonic)
     run_layout(R, tonic)
+    if R.tier == 'thorough':
+        # cfg matrix: the codec tables must hold in every subset of the compression features
+        for name, cfg, cr in R.matrix():
+            if not name.startswith('m_comp_'):
+                continue
+            R.cur_cfg = name
+            run_codec_tables(R, cr, tag='@' + name)
+        R.cur_cfg = 'full'
+        R.selftest()
 
 
 def run_codec_tables(R, tonic, tag='', rule='C01.R3'):
